@@ -47,6 +47,10 @@ pub fn grid() -> Vec<Point> {
     for v in ["127.0.0.1", "0.0.0.0", "10.1.2.3"] {
         add("interface", v, true);
     }
+    // the directory statistics are persisted to stays the one that was written, report after report
+    for v in ["/tmp", "/var/tmp"] {
+        add("persistence_directory", v, true);
+    }
     // seeds: wrong length / alphabet
     add("seed", "a32049da0ffde0ded92ce10a0230d35fe615ec8461c14986baa63fe3b3bac3db", true);
     add("seed", "a32049da0ffde0ded92ce10a0230d35fe615ec8461c14986baa63fe3b3bac3", false);
@@ -130,6 +134,11 @@ fn gen(seed: u64, idx: u64, _tier: Tier) -> Plan {
             s.client_stats = Some(pt.value.clone());
             s.persist_dir = Some("/tmp".into());
         }
+        "persistence_directory" => {
+            s.client_stats = Some("on".into());
+            s.persist_dir = Some(pt.value.clone());
+            s.status_interval = Some(1);
+        }
         "fault_percentage_bg" => {}
         "interface" => s.interface = pt.value.clone(),
         "seed" => s.seed_hex = pt.value.clone(),
@@ -152,7 +161,16 @@ fn gen(seed: u64, idx: u64, _tier: Tier) -> Plan {
         ctr += 1;
         plan.step(50_000, Action::Send { sock: 1, req: ReqSpec::Valid { proto: P::Classic, size: 1024, nonce_seed: ctr, srv: SrvMode::Absent, vers: vec![r::VER_DRAFT13] } });
     }
-    settle(&mut plan, 300);
+    if pt.key == "persistence_directory" {
+        // traffic in four consecutive one-second intervals
+        for k in 0..40u64 {
+            ctr += 1;
+            plan.step(100_000 + k * 100_000, Action::Send { sock: 2 + (k % 3) as u32, req: ReqSpec::Valid { proto: if k % 2 == 0 { P::Classic } else { P::Ietf }, size: 1024, nonce_seed: ctr, srv: SrvMode::Absent, vers: vec![r::VER_DRAFT13] } });
+        }
+        settle(&mut plan, 2500);
+    } else {
+        settle(&mut plan, 300);
+    }
     plan
 }
 
@@ -279,6 +297,16 @@ fn check(plan: &Plan, out: &RunOut) -> CheckOut {
                     }
                     if b.reporter_task != on {
                         differs("reporter thread started", b.reporter_task.to_string());
+                    }
+                }
+                "persistence_directory" => {
+                    let created: Vec<&String> = out.world.history.iter().filter_map(|r| match &r.ev { dsim::Ev::FileCreate { path, ok: true } => Some(path), _ => None }).collect();
+                    let prefix = format!("{}/", want.trim_end_matches('/'));
+                    if let Some(p) = created.iter().find(|p| !p.starts_with(&prefix)) {
+                        differs("directory a statistics file was created in", p.to_string());
+                    }
+                    if created.len() < 2 {
+                        differs("statistics files written over four intervals with traffic", created.len().to_string());
                     }
                 }
                 "seed" | "seed_bare" | "seed_case" => {
